@@ -387,13 +387,13 @@ theorem batch_quiet (fuel : Nat) :
 
 theorem propagateNodeUpdates_nil_ok (fuel : Nat) (r : Root) :
     propagateNodeUpdates (fuel + 2) r [] = .ok r := by
-  simp [propagateNodeUpdates, visitStarts, propagateLoop]
+  simp [propagateNodeUpdates, visitStarts, propagateLoop, resetMarks]
 
 theorem propagateNodeUpdates_nil {fuel : Nat} {r r' : Root}
     (h : propagateNodeUpdates fuel r [] = .ok r') : r' = r := by
   match fuel with
   | 0 => simp [propagateNodeUpdates] at h
-  | 1 => simp [propagateNodeUpdates, visitStarts, propagateLoop] at h
+  | 1 => simp [propagateNodeUpdates, visitStarts, propagateLoop, resetMarks] at h
   | f + 2 => rw [propagateNodeUpdates_nil_ok] at h; cases h; rfl
 
 end SycVerif.Reactive
